@@ -1,13 +1,486 @@
-// Package c16 is the correspondence harness for property C16 (placeholder).
+// Package c16 is the correspondence harness for property C16: starting, stopping and
+// restarting the stub terminates and leaves it usable. It drives stub.New/Start/Stop/Wait/
+// UpdateContainers (public API) against a scripted runtime end over a fault-injecting
+// connection; every history runs in a re-exec'd worker subprocess and every call under a
+// deadline, so a hang is an observation ("blocked", with the call named), not a harness
+// failure.
 package c16
 
 import (
-	"errors"
+	"bufio"
+	"bytes"
+	"encoding/json"
+	"fmt"
+	"io"
+	"math/rand"
+	"os"
+	"os/exec"
+	"path/filepath"
+	"strings"
+	"sync"
+	"time"
+
+	"github.com/sirupsen/logrus"
 
 	"verifh/internal/hx"
 	"verifh/internal/lineio"
 )
 
+const workerEnv = "VERIFH_C16_WORKER"
+
+type caseIn struct {
+	ID string `json:"id"`
+	In HistIn `json:"in"`
+}
+
+type histObs struct {
+	Recs []rec `json:"recs"`
+	// set by the parent when the worker process died or stopped making progress on this case
+	Worker string `json:"worker"` // "" | crashed | hung
+	Detail string `json:"detail"`
+}
+
+type caseOut struct {
+	ID  string  `json:"id"`
+	Obs histObs `json:"obs"`
+}
+
+// totals of the fault-free exchange through Synchronize (bytes per direction)
+type totals struct {
+	Wr, Rd int
+	WrEnds []int // offsets (runtime end -> plugin) at which each frame was complete
+}
+
 func Run(o *hx.Opts, w *lineio.Writer) error {
-	return errors.New("C16 harness not implemented")
+	// the stub and ttrpc log every (expected) connection failure through logrus
+	logrus.SetOutput(io.Discard)
+	if bf := os.Getenv(workerEnv); bf != "" {
+		return worker(bf, o)
+	}
+	var cases []caseIn
+	if o.Replay != "" {
+		rc, err := hx.ReplayCases(o.Replay)
+		if err != nil {
+			return err
+		}
+		for _, c := range rc {
+			var in HistIn
+			if err := json.Unmarshal(c.In, &in); err != nil {
+				return fmt.Errorf("replay case %s: %w", c.ID, err)
+			}
+			cases = append(cases, caseIn{c.ID, in})
+		}
+	} else {
+		tot := map[int]totals{}
+		for _, pods := range []int{0, 3} {
+			t, err := calibrate(o.Scratch, pods)
+			if err != nil {
+				return fmt.Errorf("calibration: %w", err)
+			}
+			tot[pods] = t
+		}
+		cases = generate(o, tot)
+	}
+	outs := runParallel(o, cases)
+	for i, c := range cases {
+		if err := w.Put(&lineio.Case{ID: c.ID, In: c.In, Obs: outs[i]}); err != nil {
+			return err
+		}
+	}
+	return nil
+}
+
+// ---------------------------------------------------------------- worker side
+
+func worker(batch string, o *hx.Opts) error {
+	data, err := os.ReadFile(batch)
+	if err != nil {
+		return err
+	}
+	out, err := os.Create(batch + ".out")
+	if err != nil {
+		return err
+	}
+	defer out.Close()
+	dir := filepath.Dir(batch)
+	sc := bufio.NewScanner(bytes.NewReader(data))
+	sc.Buffer(make([]byte, 1<<20), 1<<28)
+	n := 0
+	for sc.Scan() {
+		if len(sc.Bytes()) == 0 {
+			continue
+		}
+		var c caseIn
+		if err := json.Unmarshal(sc.Bytes(), &c); err != nil {
+			return err
+		}
+		n++
+		recs := runHistory(c.In, dir, fmt.Sprintf("h%d", n), defaultTiming)
+		b, err := json.Marshal(caseOut{ID: c.ID, Obs: histObs{Recs: recs}})
+		if err != nil {
+			return err
+		}
+		out.Write(append(b, '\n')) // unbuffered: survives a crash in a later case
+		os.Remove(filepath.Join(dir, fmt.Sprintf("h%d.sock", n)))
+	}
+	return sc.Err()
+}
+
+// ---------------------------------------------------------------- parent side
+
+func runParallel(o *hx.Opts, cases []caseIn) []histObs {
+	nw := 6 // workers mostly sleep on deadlines
+	if len(cases) < nw {
+		nw = 1
+	}
+	outs := make([]histObs, len(cases))
+	var wg sync.WaitGroup
+	for wi := 0; wi < nw; wi++ {
+		var idx []int
+		for i := wi; i < len(cases); i += nw {
+			idx = append(idx, i)
+		}
+		if len(idx) == 0 {
+			continue
+		}
+		wg.Add(1)
+		go func(wi int, idx []int) {
+			defer wg.Done()
+			gen := 0
+			for len(idx) > 0 {
+				gen++
+				dir := filepath.Join(o.Scratch, fmt.Sprintf("w%d.%d", wi, gen))
+				done, how, detail := runWorker(dir, cases, idx, outs)
+				if done >= len(idx) {
+					break
+				}
+				// the worker died or hung on case idx[done]: that is the observation for it
+				outs[idx[done]] = histObs{Worker: how, Detail: detail}
+				idx = idx[done+1:]
+			}
+		}(wi, idx)
+	}
+	wg.Wait()
+	return outs
+}
+
+// runWorker runs one worker process over cases[idx...]; returns how many results it
+// delivered and, if fewer than asked, why it stopped.
+func runWorker(dir string, cases []caseIn, idx []int, outs []histObs) (int, string, string) {
+	if err := os.MkdirAll(dir, 0o755); err != nil {
+		return 0, "crashed", err.Error()
+	}
+	batch := filepath.Join(dir, "b")
+	var buf bytes.Buffer
+	for _, i := range idx {
+		b, _ := json.Marshal(cases[i])
+		buf.Write(b)
+		buf.WriteByte('\n')
+	}
+	if err := os.WriteFile(batch, buf.Bytes(), 0o644); err != nil {
+		return 0, "crashed", err.Error()
+	}
+	cmd := exec.Command(os.Args[0], "C16", "-out", filepath.Join(dir, "o"))
+	cmd.Env = append(os.Environ(), workerEnv+"="+batch, "GOMEMLIMIT=1GiB")
+	var stderr bytes.Buffer
+	cmd.Stdout = &stderr
+	cmd.Stderr = &stderr
+	if err := cmd.Start(); err != nil {
+		return 0, "crashed", err.Error()
+	}
+	exited := make(chan error, 1)
+	go func() { exited <- cmd.Wait() }()
+	how := ""
+	last, lastSize := time.Now(), int64(-1)
+	tick := time.NewTicker(200 * time.Millisecond)
+	defer tick.Stop()
+loop:
+	for {
+		select {
+		case err := <-exited:
+			if err != nil {
+				how = "crashed"
+			}
+			break loop
+		case <-tick.C:
+			sz := int64(0)
+			if fi, err := os.Stat(batch + ".out"); err == nil {
+				sz = fi.Size()
+			}
+			if sz != lastSize {
+				last, lastSize = time.Now(), sz
+			} else if time.Since(last) > 90*time.Second {
+				// one history is at most a few deadlines long; no progress for this long
+				// means the worker itself is stuck
+				cmd.Process.Kill()
+				<-exited
+				how = "hung"
+				break loop
+			}
+		}
+	}
+	n := 0
+	if f, err := os.Open(batch + ".out"); err == nil {
+		sc := bufio.NewScanner(f)
+		sc.Buffer(make([]byte, 1<<20), 1<<28)
+		for sc.Scan() && n < len(idx) {
+			var c caseOut
+			if json.Unmarshal(sc.Bytes(), &c) != nil {
+				break
+			}
+			outs[idx[n]] = c.Obs
+			n++
+		}
+		f.Close()
+	}
+	detail := ""
+	if n < len(idx) {
+		if how == "" {
+			how = "crashed"
+		}
+		detail = firstPanicLine(stderr.String())
+	}
+	return n, how, detail
+}
+
+func firstPanicLine(s string) string {
+	for _, l := range strings.Split(s, "\n") {
+		if strings.HasPrefix(l, "panic:") || strings.HasPrefix(l, "fatal error:") {
+			return l
+		}
+	}
+	ls := strings.Split(strings.TrimSpace(s), "\n")
+	if len(ls) > 0 {
+		l := ls[len(ls)-1]
+		if len(l) > 200 {
+			l = l[:200]
+		}
+		return l
+	}
+	return ""
+}
+
+// calibrate measures the fault-free exchange (connect, register, configure, synchronize).
+func calibrate(scratch string, pods int) (totals, error) {
+	in := HistIn{Kind: "hist", Ops: []Op{{Op: "start", Script: Script{Kind: "ok", Pods: pods}}}}
+	var t totals
+	lg := newLog()
+	_ = lg
+	dir := filepath.Join(scratch, "cal")
+	if err := os.MkdirAll(dir, 0o755); err != nil {
+		return t, err
+	}
+	var got *Facts
+	calHook = func(rt *runtimeEnd) {
+		s := rt.current()
+		if s == nil {
+			return
+		}
+		for i := 0; i < 3000 && s.getStage() != "synchronized"; i++ {
+			time.Sleep(time.Millisecond)
+		}
+		if s.getStage() == "synchronized" {
+			f := s.fc.facts()
+			got = &f
+			s.fc.mu.Lock()
+			t.WrEnds = append([]int(nil), s.fc.wp.ends...)
+			s.fc.mu.Unlock()
+		}
+	}
+	defer func() { calHook = nil }()
+	recs := runHistory(in, dir, fmt.Sprintf("c%d", pods), defaultTiming)
+	os.Remove(filepath.Join(dir, fmt.Sprintf("c%d.sock", pods)))
+	if got == nil {
+		b, _ := json.Marshal(recs)
+		return t, fmt.Errorf("fault-free handshake did not complete: %s", b)
+	}
+	t.Wr, t.Rd = got.Wr, got.Rd
+	return t, nil
+}
+
+// ---------------------------------------------------------------- generators
+
+func start(kind string) Op { return Op{Op: "start", Script: Script{Kind: kind}} }
+func cut(dir string, k, pods int) Op {
+	return Op{Op: "start", Script: Script{Kind: "cut", Dir: dir, K: k, Pods: pods}}
+}
+func op(name string) Op { return Op{Op: name} }
+
+// the three restart patterns after a first operation sequence xs
+func pattern(p byte, xs ...Op) []Op {
+	var tail []Op
+	switch p {
+	case 'A': // let every close notification arrive, then restart
+		tail = []Op{op("await"), op("wait"), start("ok"), op("dispatch"), op("update"), op("stop"), op("wait")}
+	case 'B': // restart at once: the earlier session's close notification may still be in flight
+		tail = []Op{start("ok"), op("dispatch"), op("await"), op("dispatch"), op("update"), op("stop"), op("wait")}
+	case 'C': // stop, then restart at once
+		tail = []Op{op("stop"), start("ok"), op("await"), op("dispatch"), op("update"), op("stop"), op("wait")}
+	}
+	return append(append([]Op{}, xs...), tail...)
+}
+
+func generate(o *hx.Opts, tot map[int]totals) []caseIn {
+	var cs []caseIn
+	add := func(id, stream string, excluded bool, ops []Op) {
+		cs = append(cs, caseIn{ID: id, In: HistIn{Kind: "hist", Ops: ops, Excluded: excluded, Stream: stream}})
+	}
+	pats := []byte{'A', 'B', 'C'}
+
+	// S1: every byte offset of the connect/register/configure/synchronize exchange (and a
+	// little beyond, into the first request), both directions
+	for _, dir := range []string{"r2p", "p2r"} {
+		t := tot[0]
+		n := t.Wr
+		if dir == "p2r" {
+			n = t.Rd
+		}
+		for k := 0; k <= n+24; k++ {
+			if o.Thorough() {
+				for _, p := range pats {
+					add(fmt.Sprintf("cut-%s-%d-%c", dir, k, p), "offsets", false, pattern(p, cut(dir, k, 0)))
+				}
+			} else {
+				p := pats[k%3]
+				add(fmt.Sprintf("cut-%s-%d-%c", dir, k, p), "offsets", false, pattern(p, cut(dir, k, 0)))
+				if p != 'A' && k%2 == 0 {
+					add(fmt.Sprintf("cut-%s-%d-A", dir, k), "offsets", false, pattern('A', cut(dir, k, 0)))
+				}
+			}
+		}
+		if o.Thorough() {
+			t := tot[3]
+			n := t.Wr
+			if dir == "p2r" {
+				n = t.Rd
+			}
+			for k := 0; k <= n+24; k++ {
+				p := pats[k%3]
+				add(fmt.Sprintf("cut3-%s-%d-%c", dir, k, p), "offsets", false, pattern(p, cut(dir, k, 3)))
+			}
+		}
+	}
+
+	// S2: every kind of first attempt x every restart pattern, plus restart chains
+	firsts := map[string][]Op{
+		"ok":         {start("ok")},
+		"ok-lose":    {start("ok"), op("lose")},
+		"ok-disp":    {start("ok"), op("dispatch"), op("update")},
+		"refuse":     {start("refuse")},
+		"refuseKeep": {start("refuseKeep")},
+		"cfgErr":     {start("cfgErr")},
+		"dialFail":   {start("dialFail")},
+		"noAnswer":   {{Op: "start", Script: Script{Kind: "noAnswer", CtxMs: 250}}},
+		"twice":      {start("ok"), start("ok")},
+		"fail-fail":  {start("refuse"), start("cfgErr"), start("dialFail")},
+		"wait-first": {op("wait"), op("stop")},
+	}
+	names := []string{"ok", "ok-lose", "ok-disp", "refuse", "refuseKeep", "cfgErr", "dialFail", "noAnswer", "twice", "fail-fail", "wait-first"}
+	reps := o.N(3, 12)
+	for rep := 0; rep < reps; rep++ {
+		for _, nm := range names {
+			for _, p := range pats {
+				add(fmt.Sprintf("first-%s-%c-%d", nm, p, rep), "kinds", false, pattern(p, firsts[nm]...))
+			}
+		}
+	}
+	// restart chains: n sessions back to back, each stopped or lost
+	for rep := 0; rep < o.N(6, 100); rep++ {
+		for n := 2; n <= 5; n++ {
+			var ops []Op
+			for i := 0; i < n; i++ {
+				ops = append(ops, start("ok"), op("dispatch"))
+				if (i+rep)%2 == 0 {
+					ops = append(ops, op("stop"))
+				} else {
+					ops = append(ops, op("lose"), op("await"))
+				}
+			}
+			ops = append(ops, start("ok"), op("await"), op("dispatch"), op("update"))
+			add(fmt.Sprintf("chain-%d-%d", n, rep), "chains", false, ops)
+		}
+	}
+	// a Configure callback still running when its connection is dropped and the next Start
+	// begins: its late result belongs to the OLD attempt
+	if ends := tot[0].WrEnds; len(ends) >= 2 {
+		for rep := 0; rep < o.N(8, 40); rep++ {
+			first := Op{Op: "start", Script: Script{Kind: "cut", Dir: "r2p", K: ends[1], CfgDelayMs: 20 + 10*(rep%3)}}
+			second := Op{Op: "start", Script: Script{Kind: "ok", CfgDelayMs: 120}}
+			add(fmt.Sprintf("stalecfg-%d", rep), "stalecfg", false,
+				[]Op{first, second, op("dispatch"), op("await"), op("dispatch"), op("stop"), op("wait")})
+		}
+	}
+	// the default registration timeout (5 s) with a runtime end that never answers
+	if o.Thorough() || o.Budget <= 1 {
+		add("noanswer-default-timeout", "kinds", false, pattern('A', start("noAnswer")))
+	}
+
+	// S3: random histories
+	r := o.Rand(16)
+	t0 := tot[0]
+	for i := 0; i < o.N(250, 12000); i++ {
+		add(fmt.Sprintf("rand-%d", i), "random", false, randomHistory(r, t0))
+	}
+
+	// excluded: the runtime end registers the plugin, then neither configures it nor hangs
+	// up. Outside the property's list of runtime behaviours; recorded, correspondence only.
+	add("stall-0", "excluded", true, []Op{start("stall")})
+	if o.Thorough() {
+		add("stall-1", "excluded", true, []Op{start("ok"), op("stop"), start("stall")})
+	}
+	return cs
+}
+
+func randomHistory(r *rand.Rand, t totals) []Op {
+	n := 3 + r.Intn(11)
+	var ops []Op
+	waits := 0
+	for len(ops) < n {
+		x := r.Intn(100)
+		switch {
+		case x < 36:
+			ops = append(ops, randomStart(r, t))
+		case x < 50:
+			ops = append(ops, op("stop"))
+		case x < 60:
+			if waits < 2 {
+				waits++
+				ops = append(ops, op("wait"))
+			}
+		case x < 70:
+			ops = append(ops, op("lose"))
+		case x < 76:
+			ops = append(ops, op("await"))
+		case x < 80:
+			ops = append(ops, Op{Op: "pause", Script: Script{K: []int{0, 20, 200, 2000}[r.Intn(4)]}})
+		case x < 92:
+			ops = append(ops, op("dispatch"))
+		default:
+			ops = append(ops, op("update"))
+		}
+	}
+	return ops
+}
+
+func randomStart(r *rand.Rand, t totals) Op {
+	x := r.Intn(100)
+	switch {
+	case x < 45:
+		return start("ok")
+	case x < 70:
+		if r.Intn(2) == 0 {
+			return cut("r2p", r.Intn(t.Wr+30), 0)
+		}
+		return cut("p2r", r.Intn(t.Rd+30), 0)
+	case x < 78:
+		return start("refuse")
+	case x < 82:
+		return start("refuseKeep")
+	case x < 90:
+		return start("cfgErr")
+	case x < 98:
+		return start("dialFail")
+	default:
+		return Op{Op: "start", Script: Script{Kind: "noAnswer", CtxMs: 200}}
+	}
 }
